@@ -68,16 +68,19 @@ theorem AgreeRows.right {a b : List Row} (h : AgreeRows (a ++ b)) : AgreeRows b 
 
 /-- one cut at an end-of-line byte `e`: the pieces `x | e y` (thread slices) and `x e | y` (chunks, parts)
 both give the rows of the whole text `x e y`; the hypotheses on the lines carry over to `y` -/
-theorem LineFormat.cut {rows : Bytes → Res (List Row)} {recS : Bytes → Res (Option LineRec)}
-    (F : LineFormat rows recS) (x y : Bytes) (e : UInt8) (he : isEolB e = true)
-    (hb : (x ++ e :: y).length + 2 < 2 ^ 64) (rss : List (List Row))
+theorem LineFormat.cut {good : UInt8 → Bool} {rows : Bytes → Res (List Row)} {recS : Bytes → Res (Option LineRec)}
+    (F : LineFormat good rows recS) (x y : Bytes) (e : UInt8) (he : isEolB e = true)
+    (hg : ∀ b ∈ x ++ e :: y, good b = true) (hb : (x ++ e :: y).length + 2 < 2 ^ 64) (rss : List (List Row))
     (hl : (eolSplit (x ++ e :: y)).mapM rows = .ok rss) (ha : AgreeRows rss.flatten) :
     ∃ rsx rsy, (eolSplit x).mapM rows = .ok rsx ∧ (eolSplit y).mapM rows = .ok rsy ∧
       AgreeRows rsx.flatten ∧ AgreeRows rsy.flatten ∧
       rows x = .ok rsx.flatten ∧ rows (x ++ [e]) = .ok rsx.flatten ∧
       rows (e :: y) = .ok rsy.flatten ∧ rows y = .ok rsy.flatten ∧
       rows (x ++ e :: y) = .ok (rsx.flatten ++ rsy.flatten) := by
-  have hwhole := F.concat_of_lines _ hb rss hl ha
+  have hwhole := F.concat_of_lines _ hg hb rss hl ha
+  have hgx : ∀ b ∈ x, good b = true := fun b hb' => hg b (by simp [hb'])
+  have hgy : ∀ b ∈ y, good b = true := fun b hb' => hg b (by simp [hb'])
+  have hge : good e = true := hg e (by simp)
   rw [eolSplit_append_eol x y e he] at hl
   obtain ⟨rsx, rsy, hx, hy, rfl⟩ := mapM_append_split _ _ _ _ hl
   have hax : AgreeRows rsx.flatten := by rw [List.flatten_append] at ha; exact ha.left
@@ -85,18 +88,18 @@ theorem LineFormat.cut {rows : Bytes → Res (List Row)} {recS : Bytes → Res (
   have hlen : x.length + 2 < 2 ^ 64 ∧ y.length + 3 < 2 ^ 64 := by
     simp only [List.length_append, List.length_cons] at hb; omega
   have hnil : rows [] = .ok [] := by
-    rw [F.rows_single [] (by simp)]; simp [single, F.nil, Except.bind, rowsOf_build_nil]
-  refine ⟨rsx, rsy, hx, hy, hax, hay, F.concat_of_lines x hlen.1 rsx hx hax, ?_, ?_,
-    F.concat_of_lines y (by omega) rsy hy hay, by rw [hwhole, List.flatten_append]⟩
+    rw [F.rows_single [] (by simp) (by simp) (by simp)]; simp [single, F.nil, Except.bind, rowsOf_build_nil]
+  refine ⟨rsx, rsy, hx, hy, hax, hay, F.concat_of_lines x hgx hlen.1 rsx hx hax, ?_, ?_,
+    F.concat_of_lines y hgy (by omega) rsy hy hay, by rw [hwhole, List.flatten_append]⟩
   · have h1 : (eolSplit (x ++ [e])).mapM rows = .ok (rsx ++ [[]]) := by
       rw [eolSplit_snoc_eol x e he, List.mapM_append, hx]
       simp [hnil, bind, Except.bind, pure, Except.pure]
-    have := F.concat_of_lines (x ++ [e]) (by have := hlen.1; simp only [List.length_append, List.length_cons, List.length_nil] at hb ⊢; omega) _ h1 (by simpa using hax)
+    have := F.concat_of_lines (x ++ [e]) (by intro b hb'; simp at hb'; rcases hb' with h | rfl; exact hgx b h; exact hge) (by have := hlen.1; simp only [List.length_append, List.length_cons, List.length_nil] at hb ⊢; omega) _ h1 (by simpa using hax)
     simpa using this
   · have h1 : (eolSplit (e :: y)).mapM rows = .ok ([] :: rsy) := by
       rw [eolSplit_eol_cons y e he, List.mapM_cons, hnil, hy]
       simp [bind, Except.bind, pure, Except.pure]
-    have := F.concat_of_lines (e :: y) (by have := hlen.2; simp only [List.length_cons]; omega) _ h1 (by simpa using hay)
+    have := F.concat_of_lines (e :: y) (by intro b hb'; simp at hb'; rcases hb' with rfl | h; exact hge; exact hgy b h) (by have := hlen.2; simp only [List.length_cons]; omega) _ h1 (by simpa using hay)
     simpa using this
 
 /-- `x₁ e₁ x₂ e₂ … z`: the pieces `xᵢ eᵢ` end with an end-of-line byte (chunks of an InputSplit, parts) -/
@@ -105,22 +108,23 @@ def joinAfter : List (Bytes × UInt8) → Bytes → Bytes
   | p :: ps, z => p.1 ++ p.2 :: joinAfter ps z
 
 /-- any number of cuts directly after end-of-line bytes: the rows of the pieces, in order, are the rows of the text -/
-theorem LineFormat.pieces_after_eol {rows : Bytes → Res (List Row)} {recS : Bytes → Res (Option LineRec)}
-    (F : LineFormat rows recS) (ps : List (Bytes × UInt8)) (z : Bytes) (he : ∀ p ∈ ps, isEolB p.2 = true)
-    (hb : (joinAfter ps z).length + 2 < 2 ^ 64) (rss : List (List Row))
+theorem LineFormat.pieces_after_eol {good : UInt8 → Bool} {rows : Bytes → Res (List Row)} {recS : Bytes → Res (Option LineRec)}
+    (F : LineFormat good rows recS) (ps : List (Bytes × UInt8)) (z : Bytes) (he : ∀ p ∈ ps, isEolB p.2 = true)
+    (hg : ∀ b ∈ joinAfter ps z, good b = true) (hb : (joinAfter ps z).length + 2 < 2 ^ 64) (rss : List (List Row))
     (hl : (eolSplit (joinAfter ps z)).mapM rows = .ok rss) (ha : AgreeRows rss.flatten) :
     ∃ rs rz, ps.mapM (fun p => rows (p.1 ++ [p.2])) = .ok rs ∧ rows z = .ok rz ∧
       rows (joinAfter ps z) = .ok (rs.flatten ++ rz) := by
   induction ps generalizing rss with
   | nil =>
-    have := F.concat_of_lines z hb rss hl ha
+    have := F.concat_of_lines z hg hb rss hl ha
     exact ⟨[], rss.flatten, rfl, this, by simpa [joinAfter] using this⟩
   | cons p ps ih =>
     obtain ⟨rsx, rsy, _, hy, _, hay, _, h2, _, h4, h5⟩ :=
-      F.cut p.1 (joinAfter ps z) p.2 (he p (by simp)) hb rss hl ha
+      F.cut p.1 (joinAfter ps z) p.2 (he p (by simp)) hg hb rss hl ha
+    have hg' : ∀ b ∈ joinAfter ps z, good b = true := fun b hb' => hg b (by simp [joinAfter, hb'])
     have hb' : (joinAfter ps z).length + 2 < 2 ^ 64 := by
       simp only [joinAfter, List.length_append, List.length_cons] at hb; omega
-    obtain ⟨rs, rz, h6, h7, h8⟩ := ih (fun q hq => he q (by simp [hq])) hb' rsy hy hay
+    obtain ⟨rs, rz, h6, h7, h8⟩ := ih (fun q hq => he q (by simp [hq])) hg' hb' rsy hy hay
     rw [h4] at h8
     have h9 : rsy.flatten = rs.flatten ++ rz := Except.ok.inj h8
     refine ⟨rsx.flatten :: rs, rz, ?_, h7, ?_⟩
@@ -131,26 +135,26 @@ theorem LineFormat.pieces_after_eol {rows : Bytes → Res (List Row)} {recS : By
 /-- `z (e₁ y₁) (e₂ y₂) …`: every piece but the first starts with an end-of-line byte (FillData's thread slices) -/
 def joinAt (z : Bytes) (ps : List (UInt8 × Bytes)) : Bytes := z ++ ps.flatMap fun p => p.1 :: p.2
 
-theorem LineFormat.pieces_at_eol {rows : Bytes → Res (List Row)} {recS : Bytes → Res (Option LineRec)}
-    (F : LineFormat rows recS) (ps : List (UInt8 × Bytes)) (z : Bytes) (he : ∀ p ∈ ps, isEolB p.1 = true)
-    (hb : (joinAt z ps).length + 3 < 2 ^ 64) (rss : List (List Row))
+theorem LineFormat.pieces_at_eol {good : UInt8 → Bool} {rows : Bytes → Res (List Row)} {recS : Bytes → Res (Option LineRec)}
+    (F : LineFormat good rows recS) (ps : List (UInt8 × Bytes)) (z : Bytes) (he : ∀ p ∈ ps, isEolB p.1 = true)
+    (hg : ∀ b ∈ joinAt z ps, good b = true) (hb : (joinAt z ps).length + 3 < 2 ^ 64) (rss : List (List Row))
     (hl : (eolSplit (joinAt z ps)).mapM rows = .ok rss) (ha : AgreeRows rss.flatten) :
     ∃ rz rs, rows z = .ok rz ∧ ps.mapM (fun p => rows (p.1 :: p.2)) = .ok rs ∧
       rows (joinAt z ps) = .ok (rz ++ rs.flatten) := by
   induction ps generalizing z rss with
   | nil =>
     have hz : joinAt z [] = z := by simp [joinAt]
-    rw [hz] at hl hb ⊢
-    have := F.concat_of_lines z (by omega) rss hl ha
+    rw [hz] at hl hb hg ⊢
+    have := F.concat_of_lines z hg (by omega) rss hl ha
     exact ⟨rss.flatten, [], this, rfl, by simpa using this⟩
   | cons p ps ih =>
     have hshape : joinAt z (p :: ps) = z ++ p.1 :: (p.2 ++ ps.flatMap fun q => q.1 :: q.2) := by
       simp [joinAt]
-    rw [hshape] at hl hb
+    rw [hshape] at hl hb hg
     obtain ⟨rsx, rsy, _, hy, _, hay, h1, _, h3, _, h5⟩ :=
-      F.cut z _ p.1 (he p (by simp)) (by omega) rss hl ha
+      F.cut z _ p.1 (he p (by simp)) hg (by omega) rss hl ha
     have hnil : rows [] = .ok [] := by
-      rw [F.rows_single [] (by simp)]; simp [single, F.nil, Except.bind, rowsOf_build_nil]
+      rw [F.rows_single [] (by simp) (by simp) (by simp)]; simp [single, F.nil, Except.bind, rowsOf_build_nil]
     have hshape' : joinAt (p.1 :: p.2) ps = p.1 :: (p.2 ++ ps.flatMap fun q => q.1 :: q.2) := by
       simp [joinAt]
     have hl' : (eolSplit (joinAt (p.1 :: p.2) ps)).mapM rows = .ok ([] :: rsy) := by
@@ -158,7 +162,9 @@ theorem LineFormat.pieces_at_eol {rows : Bytes → Res (List Row)} {recS : Bytes
       simp [bind, Except.bind, pure, Except.pure]
     have hb' : (joinAt (p.1 :: p.2) ps).length + 3 < 2 ^ 64 := by
       rw [hshape']; simp only [List.length_append, List.length_cons] at hb ⊢; omega
-    obtain ⟨rz', rs', h6, h7, h8⟩ := ih (p.1 :: p.2) (fun q hq => he q (by simp [hq])) hb' _ hl' (by simpa using hay)
+    have hg' : ∀ b ∈ joinAt (p.1 :: p.2) ps, good b = true := by
+      rw [hshape']; intro b hb''; exact hg b (by simp at hb'' ⊢; rcases hb'' with h | h | h; exact Or.inr (Or.inl h); exact Or.inr (Or.inr (Or.inl h)); exact Or.inr (Or.inr (Or.inr h)))
+    obtain ⟨rz', rs', h6, h7, h8⟩ := ih (p.1 :: p.2) (fun q hq => he q (by simp [hq])) hg' hb' _ hl' (by simpa using hay)
     rw [hshape', h3] at h8
     have h9 : rsy.flatten = rz' ++ rs'.flatten := Except.ok.inj h8
     refine ⟨rsx.flatten, rz' :: rs', h1, ?_, ?_⟩
